@@ -1,0 +1,119 @@
+//! Verification hooks.
+//!
+//! Thin wrappers that *call* private kernels of the primitives so that an external verification
+//! harness can examine them in isolation (one scanline of a shape, one join, one intersection).
+//! They contain no logic of their own. This module is only compiled with
+//! `--cfg embedded_graphics_verif` and is not part of the public API.
+
+use crate::{
+    geometry::{Point, Size},
+    primitives::{
+        circle,
+        common::{JoinKind, LineJoin, LineSide, Scanline, StrokeOffset, StyledScanline},
+        ellipse,
+        line::intersection_params::{Intersection, IntersectionParams},
+        rounded_rectangle, triangle, Circle, Ellipse, Line, RoundedRectangle, Triangle,
+    },
+};
+use core::ops::Range;
+
+fn row(scanline: Option<Scanline>) -> Option<Range<i32>> {
+    scanline.map(|s| s.x)
+}
+
+fn styled_row(scanline: Option<StyledScanline>) -> Option<[Range<i32>; 3]> {
+    scanline.map(|s| [s.stroke_left().x, s.fill().x, s.stroke_right().x])
+}
+
+/// Columns of row `y` produced by the circle's scanline iterator (`None`: iteration ends).
+pub fn circle_scanline_at(circle: &Circle, y: i32) -> Option<Range<i32>> {
+    row(circle::verif_scanline_at(circle, y))
+}
+
+/// Columns of row `y` produced by the ellipse's scanline iterator (`None`: iteration ends).
+pub fn ellipse_scanline_at(ellipse: &Ellipse, y: i32) -> Option<Range<i32>> {
+    row(ellipse::verif_scanline_at(ellipse, y))
+}
+
+/// Columns of row `y` produced by the rounded rectangle's scanline iterator.
+pub fn rounded_rectangle_scanline_at(shape: &RoundedRectangle, y: i32) -> Option<Range<i32>> {
+    row(rounded_rectangle::verif_scanline_at(shape, y))
+}
+
+/// Left stroke, fill and right stroke columns of row `y` of a styled circle.
+pub fn circle_styled_scanline_at(
+    stroke_area: &Circle,
+    fill_area: &Circle,
+    y: i32,
+) -> Option<[Range<i32>; 3]> {
+    styled_row(circle::verif_styled_scanline_at(stroke_area, fill_area, y))
+}
+
+/// Left stroke, fill and right stroke columns of row `y` of a styled ellipse.
+pub fn ellipse_styled_scanline_at(
+    stroke_area: &Ellipse,
+    fill_area: &Ellipse,
+    y: i32,
+) -> Option<[Range<i32>; 3]> {
+    styled_row(ellipse::verif_styled_scanline_at(stroke_area, fill_area, y))
+}
+
+/// Left stroke, fill and right stroke columns of row `y` of a styled rounded rectangle.
+pub fn rounded_rectangle_styled_scanline_at(
+    stroke_area: &RoundedRectangle,
+    fill_area: &RoundedRectangle,
+    y: i32,
+) -> Option<[Range<i32>; 3]> {
+    styled_row(rounded_rectangle::verif_styled_scanline_at(
+        stroke_area,
+        fill_area,
+        y,
+    ))
+}
+
+/// Columns of row `y` of a filled triangle (`Triangle::scanline_intersection`).
+pub fn triangle_scanline_at(triangle: &Triangle, y: i32) -> Range<i32> {
+    triangle::verif_scanline_at(triangle, y).x
+}
+
+/// `EllipseContains::new(size).contains(point)` (point relative to the doubled centre).
+pub fn ellipse_contains(size: Size, point: Point) -> bool {
+    ellipse::EllipseContains::new(size).contains(point)
+}
+
+/// Left and right edge lines of a thick line (`Line::extents`, no stroke offset).
+pub fn line_extents(line: &Line, width: u32) -> (Line, Line) {
+    line.extents(width, StrokeOffset::None)
+}
+
+/// Intersection point of two lines and whether the outer side is the left one
+/// (`IntersectionParams::intersection`); `None` for colinear lines.
+pub fn line_intersection(line1: &Line, line2: &Line) -> Option<(Point, bool)> {
+    match IntersectionParams::from_lines(line1, line2).intersection() {
+        Intersection::Point { point, outer_side } => Some((point, outer_side == LineSide::Left)),
+        Intersection::Colinear => None,
+    }
+}
+
+/// Kind (0 miter, 1 bevel, 2 degenerate, 3 colinear, 4 start, 5 end) and the four edge corner
+/// points of the join at `mid` (`LineJoin::from_points`, no stroke offset).
+pub fn line_join(start: Point, mid: Point, end: Point, width: u32) -> (u8, [Point; 4]) {
+    let join = LineJoin::from_points(start, mid, end, width, StrokeOffset::None);
+    let kind = match join.kind {
+        JoinKind::Miter => 0,
+        JoinKind::Bevel { .. } => 1,
+        JoinKind::Degenerate { .. } => 2,
+        JoinKind::Colinear => 3,
+        JoinKind::Start => 4,
+        JoinKind::End => 5,
+    };
+    (
+        kind,
+        [
+            join.first_edge_end.left,
+            join.first_edge_end.right,
+            join.second_edge_start.left,
+            join.second_edge_start.right,
+        ],
+    )
+}
